@@ -227,6 +227,10 @@ pub struct GPlan {
     /// no scope); the install may happen while the scope is open
     #[serde(default)]
     pub scoped: Vec<u32>,
+    /// emitter 0 makes this many emissions during which the installed recorder panics (caught at
+    /// the call site) before its ordinary emissions
+    #[serde(default)]
+    pub panicking_calls: u32,
 }
 
 pub struct C02Global;
@@ -241,7 +245,7 @@ impl Scenario for C02Global {
     }
     fn plan(&self, r: &mut Rng, _tier: Tier) -> GPlan {
         let n = r.range(1, 3) as usize;
-        GPlan { installers: r.range(1, 3) as u32, emitters: (0..n).map(|_| r.range(1, 5) as u32).collect(), installer_delay: r.below(4) as u32, scoped: (0..n).map(|_| if r.chance(350) { r.range(1, 6) as u32 } else { 0 }).collect() }
+        GPlan { installers: r.range(1, 3) as u32, emitters: (0..n).map(|_| r.range(1, 5) as u32).collect(), installer_delay: r.below(4) as u32, scoped: (0..n).map(|_| if r.chance(350) { r.range(1, 6) as u32 } else { 0 }).collect(), panicking_calls: if r.chance(100) { 20 } else { 0 } }
     }
     fn horizon(&self) -> u64 {
         60
@@ -290,6 +294,8 @@ impl Scenario for C02Global {
                 let log = log2.clone();
                 let n = *n;
                 let scoped = p.scoped.get(e).copied().unwrap_or(0);
+                let panicking = p.panicking_calls;
+                let all_shareds = shareds2.clone();
                 let local_shared = Shared::new(log2.clone());
                 hs.push(dsim::spawn(&format!("emitter{}", e), move || {
                     if scoped > 0 {
@@ -311,6 +317,28 @@ impl Scenario for C02Global {
                         }
                     }
                     for k in 0..n {
+                        if e == 0 && k == 1 {
+                            // user-supplied recorder code that panics, many times on one thread: none of it
+                            // may change where this thread's later emissions go
+                            for _ in 0..panicking {
+                                dsim::point("c02g.panicking.emit");
+                                let me = dsim::tid();
+                                for sh in &all_shareds {
+                                    crate::doubles::set_flag(&sh.panic_next, me);
+                                }
+                                let r = std::panic::catch_unwind(std::panic::AssertUnwindSafe(|| {
+                                    metrics::counter!("c02_panicking").increment(1);
+                                }));
+                                for sh in &all_shareds {
+                                    crate::doubles::take_flag(&sh.panic_next, me);
+                                }
+                                if let Err(p) = r {
+                                    if !p.is::<crate::doubles::DoublePanic>() {
+                                        std::panic::resume_unwind(p);
+                                    }
+                                }
+                            }
+                        }
                         dsim::point("c02g.emit.begin");
                         let me = dsim::tid();
                         let before = log.lock().unwrap().len();
@@ -429,6 +457,10 @@ impl Scenario for C02Global {
         }
         if p.installer_delay > 0 {
             v.push(GPlan { installer_delay: p.installer_delay - 1, ..p.clone() });
+        }
+        if p.panicking_calls > 0 {
+            v.push(GPlan { panicking_calls: 0, ..p.clone() });
+            v.push(GPlan { panicking_calls: p.panicking_calls - 1, ..p.clone() });
         }
         for i in 0..p.scoped.len() {
             if p.scoped[i] > 0 {
